@@ -1540,3 +1540,227 @@ Proof.
         -- now rewrite B.
     + eapply uniq_consume; [apply keeps_gone_entry|exact HF|exact Hnc|exact Hok|exact U].
 Qed.
+
+(* ------------------------------------------------------------------ Entry::replace *)
+Lemma firstn_map_app {A B} (f : A -> B) (l x : list A) : firstn (length l) (map f (l ++ x)) = map f l.
+Proof. rewrite map_app, <- (map_length f l). apply firstn_app_len. Qed.
+
+(* the machine, for an arbitrary register file: entry handle in rk, the new relation (the root of
+   its own tree, as Relation::new builds it) in rm *)
+Lemma ereplace_machine ts rs rk rm tid ri T ci pre ocs post r j tr rr :
+  nth_error rs rk = Some (Some (mk_hnd tid [ci])) -> nth_error rs rm = Some (Some (mk_hnd tr [])) ->
+  nth_error ts tid = Some (mk_slot true ri T) ->
+  get_path T [ci] = Some (Node ENTRY (pre ++ Node RELATION ocs :: post)) ->
+  nth_error ts tr = Some (mk_slot true rr (crel_tree r)) -> tid <> tr ->
+  nth_index is_relation j (pre ++ Node RELATION ocs :: post) = Some (length pre) -> ws_prefix_len ocs = 0 ->
+  exists ts' F,
+    runs (entry_replace fixed rk j rm) (mk_state ts rs) tt (mk_state ts' (set_reg_l rm None (map (option_map F) rs))) /\
+    nth_error ts' tid = Some (mk_slot true ri
+      (upd_path T [ci] (fun _ => Node ENTRY (pre ++ dressed (Node RELATION ocs) (crel_tree r) :: post)))) /\
+    (forall j0, j0 <> tid -> j0 <> tr -> j0 < length ts -> nth_error ts' j0 = nth_error ts j0) /\
+    (forall g, h_tid g < length ts -> h_tid g <> tr -> above tid [ci] g -> F g = g) /\
+    (forall c rest, c <> length pre -> F (mk_hnd tid ([ci] ++ c :: rest)) = mk_hnd tid ([ci] ++ c :: rest)).
+Proof.
+  intros Hk Hm HT HGe HR Hne Hidx Hh.
+  set (O := Node RELATION ocs) in *. set (E := Node ENTRY (pre ++ O :: post)) in *.
+  set (oi := length pre) in *. set (n := length rs).
+  set (kt := ws_prefix_len (rev ocs)). set (core := firstn (length ocs - kt) ocs). set (tl := ws_tail ocs).
+  assert (Eocs : ocs = core ++ tl) by apply ws_tail_split.
+  assert (Hkt : kt <= length ocs) by (unfold kt; rewrite <- (rev_length ocs); apply ws_prefix_len_le).
+  assert (Lcore : length core = length ocs - kt) by (unfold core; rewrite firstn_length; lia).
+  assert (Ltl : length tl = kt) by (unfold tl, ws_tail; fold kt; rewrite skipn_length; lia).
+  assert (HGo : get_path T ([ci] ++ [oi]) = Some O).
+  { eapply get_path_child; [exact HGe|]. unfold oi. apply nth_error_app_len. }
+  destruct (crel_no_ws r) as [Wh Wt].
+  assert (HRn : exists ncs, crel_tree r = Node RELATION ncs) by (eexists; reflexivity). destruct HRn as (ncs & Encs).
+  rewrite Encs in HR, Wh, Wt. cbn [children] in Wh, Wt.
+  pose proof (nth_error_Some_lt _ _ _ HT) as Hlt. pose proof (nth_error_Some_lt _ _ _ HR) as Hlr.
+  pose proof (nth_error_Some_lt _ _ _ Hk) as Hlk. pose proof (nth_error_Some_lt _ _ _ Hm) as Hlm.
+  set (rs6 := rs ++ [Some (mk_hnd tid ([ci] ++ [oi]))]).
+  set (hs := ws_tail_handles (mk_hnd tid ([ci] ++ [oi])) ocs).
+  set (rsA := rs6 ++ map Some hs).
+  assert (L6 : length rs6 = S n) by (unfold rs6, n; rewrite app_length; cbn; lia).
+  assert (Lhs : length hs = kt) by (unfold hs, ws_tail_handles; now rewrite map_length, seq_length).
+  assert (Hcrs : forall m cr, nth_error (rev (seq (S n) kt)) m = Some cr ->
+            nth_error rsA cr = Some (Some (mk_hnd tid (([ci] ++ [oi]) ++ [length core + m])))).
+  { intros m cr Hmm. apply nth_error_rev_seq in Hmm as [Hmm ->]. unfold rsA.
+    rewrite nth_error_app2 by lia. rewrite L6.
+    replace (S n + (kt - 1 - m) - S n) with (kt - 1 - m) by lia. rewrite nth_error_map.
+    unfold hs, ws_tail_handles. fold kt. rewrite nth_error_map_seq by lia. cbn [option_map]. unfold child_h. cbn [h_tid h_path].
+    do 3 f_equal. cbn [app]. do 2 f_equal. f_equal. rewrite Lcore. lia. }
+  assert (HGoc : get_path T ([ci] ++ [oi]) = Some (Node RELATION (core ++ tl))) by (rewrite HGo; unfold O; now rewrite <- Eocs).
+  assert (HmA : nth_error rsA rm = Some (Some (mk_hnd tr []))) by (unfold rsA, rs6; now apply nth_error_app_l, nth_error_app_l).
+  destruct (attach_all_move tl (rev (seq (S n) kt)) ts rsA rm tid ri T ([ci] ++ [oi]) RELATION core tr rr RELATION ncs
+              HmA HT HGoc HR Hne ltac:(now rewrite rev_length, seq_length) Hcrs)
+    as (ts1 & F1 & R1 & L1 & T1 & N1 & Fr1 & A1 & O1).
+  set (O1' := Node RELATION core) in *.
+  assert (ET1 : upd_path T ([ci] ++ [oi]) (fun _ => O1') = upd_path T [ci] (fun _ => Node ENTRY (pre ++ O1' :: post))).
+  { rewrite (upd_path_app _ _ _ _ _ HGe). eapply upd_path_ext; [exact HGe|]. unfold E. cbn [upd_path]. unfold oi. now rewrite upd_nth_app_r. }
+  rewrite ET1 in T1. set (T1' := upd_path T [ci] (fun _ => Node ENTRY (pre ++ O1' :: post))) in *.
+  assert (HGe1 : get_path T1' [ci] = Some (Node ENTRY (pre ++ O1' :: post)))
+    by (exact (get_path_upd_path _ _ (fun _ => Node ENTRY (pre ++ O1' :: post)) _ HGe)).
+  set (C := Node RELATION (ncs ++ tl)) in *.
+  assert (F1r1 : F1 (mk_hnd tid [ci]) = mk_hnd tid [ci]) by (apply A1; [exact Hlt|cbn; congruence|apply above_prefix]).
+  assert (F1r5 : F1 (mk_hnd tid ([ci] ++ [oi])) = mk_hnd tid ([ci] ++ [oi])) by (apply A1; [exact Hlt|cbn; congruence|apply above_self]).
+  set (rsB := map (option_map F1) rsA) in *.
+  assert (HB1 : nth_error rsB rk = Some (Some (mk_hnd tid [ci]))).
+  { unfold rsB. rewrite (nth_error_map_reg F1 _ _ (mk_hnd tid [ci])); [now rewrite F1r1|]. unfold rsA, rs6. now apply nth_error_app_l, nth_error_app_l. }
+  assert (HB4 : nth_error rsB rm = Some (Some (mk_hnd tr []))).
+  { unfold rsB. rewrite (nth_error_map_reg F1 _ _ _ HmA). now rewrite Fr1. }
+  assert (HA5 : nth_error rsA n = Some (Some (mk_hnd tid ([ci] ++ [oi])))) by (unfold rsA, rs6; apply nth_error_app_l, nth_error_app_at).
+  assert (HB5 : nth_error rsB n = Some (Some (mk_hnd tid ([ci] ++ [oi])))).
+  { unfold rsB. rewrite (nth_error_map_reg F1 _ _ _ HA5). now rewrite F1r5. }
+  destruct (splice_replace_spec_x ts1 rsB rk rm tid ri T1' [ci] ENTRY pre O1' post tr rr C HB1 HB4 T1 HGe1 N1 Hne)
+    as (ts2 & F2 & R2 & L2 & T2 & N2 & O2 & S1 & S2 & A2 & B2).
+  assert (ET2 : upd_path T1' [ci] (fun _ => Node ENTRY (pre ++ C :: post)) = upd_path T [ci] (fun _ => Node ENTRY (pre ++ C :: post))).
+  { unfold T1'. now rewrite (upd_path_const2 _ _ _ _ _ HGe). }
+  rewrite ET2 in T2.
+  assert (EC : C = dressed O (crel_tree r)).
+  { unfold dressed, O, C. rewrite Encs. cbn [children set_children ekind]. unfold ws_head, strip_ws. rewrite Hh, Wh. cbn [firstn skipn app].
+    rewrite Wt, Nat.sub_0_r, firstn_all. reflexivity. }
+  exists ts2, (fun g => F2 (F1 g)). split; [|split; [|split; [|split]]].
+  - unfold entry_replace. cbn [fx_replace_ws fixed]. unfold entry_replace_fixed.
+    rbind; [|apply runs_set_reg].
+    eapply runs_eq; [apply runs_scoped|reflexivity|].
+    + rbind; [apply runs_get_reg; exact Hk|].
+      rbind; [eapply runs_children_of; [exact HT|exact HGe]|].
+      cbn [children E]. rewrite Hidx. unfold child_h. cbn [h_tid h_path]. fold oi.
+      rbind; [apply runs_push_tmp|]. fold rs6. fold n.
+      rbind; [rbind; [apply runs_get_reg; unfold rs6; apply nth_error_app_l; exact Hm|]; eapply runs_children_of; [exact HR|reflexivity]|].
+      cbn [s_tree children]. rewrite Wh. cbn [m_repeat skipn]. rbind; [rdone|]. rewrite Wt. cbn [m_repeat]. rbind; [rdone|].
+      rbind; [apply runs_get_reg; unfold rs6; apply nth_error_app_at|].
+      rbind; [eapply runs_children_of; [exact HT|exact HGo]|]. cbn [children O].
+      unfold ws_head_handles. rewrite Hh. cbn [seq map push_tmps]. rbind; [rdone|].
+      fold hs. rbind; [apply runs_push_tmps|]. fold rsA. rewrite L6, Lhs.
+      rbind; [eapply splice_nil_runs; [exact HmA|exact HR|reflexivity|reflexivity]|].
+      rbind; [rbind; [apply runs_get_reg; exact HmA|]; eapply runs_children_of; [exact HR|reflexivity]|].
+      cbn [s_tree children].
+      rbind.
+      { unfold m_splice. rbind; [apply runs_get_reg; exact HmA|]. cbn [h_tid].
+        rbind; [eapply runs_get_slot; exact HR|]. cbn [s_mut negb].
+        rbind; [eapply runs_children_of; [exact HR|reflexivity]|]. cbn [s_tree children].
+        rewrite Nat.ltb_irrefl. cbn [andb]. rbind; [rdone|]. exact R1. }
+      fold rsB.
+      rbind; [rbind; [apply runs_get_reg; exact HB5|]; unfold index_of; rewrite parent_h_app; rdone|].
+      exact R2.
+    + cbn [regs]. unfold rsB, rsA, rs6. rewrite <- app_assoc. rewrite map_option_map_comp. f_equal. apply firstn_map_app.
+  - rewrite T2, EC. reflexivity.
+  - intros j0 Hj1 Hj2 Hj3. rewrite O2 by lia. now apply O1.
+  - intros g Hg Ht Ha. rewrite A1 by (auto; now apply above_deeper). apply A2; [exact Ht|exact Ha].
+  - intros c rest Hc. rewrite A1; [now apply B2|exact Hlt|cbn; congruence|]. apply (above_sibling tid [ci] oi c [] rest). congruence.
+Qed.
+
+Lemma keeps_gone_rel p q : keeps (gone_rel_ref p q).
+Proof. intros []; cbn; try reflexivity. destruct (_ && _); reflexivity. Qed.
+Lemma nth_index_inj {A} (p : A -> bool) l a b c : nth_index p a l = Some c -> nth_index p b l = Some c -> a = b.
+Proof. intros Ha Hb. destruct (count_at p _ _ _ Ha) as (<- & _). destruct (count_at p _ _ _ Hb) as (<- & _). reflexivity. Qed.
+
+Lemma step_ereplace b sv st a k j m a' tr : Rel b sv st a -> h_op (OEReplace k j m) a = Some (a', tr) ->
+  forallb operands_ok tr = true ->
+  exists out st', run_op fixed (OEReplace k j m) st = Ok (out, st') /\ Rel b sv st' a'.
+Proof.
+  destruct st as [ts rs]. intros HR Ha Ho. pose proof HR as (tid & ri & l & HT & Hw & Hc & H0 & Hok & U). cbn [trees regs] in *.
+  cbn [h_op] in Ha. pose proof (Hok (rreg m)) as Hm. pose proof (Hok (ereg k)) as Hk.
+  destruct (h_reg a (rreg m)) as [x|] eqn:Ex.
+  2:{ injection Ha as <- <-. apply ref_none in Hm. exists (1%N, @None str), (mk_state ts rs). split; [|exact HR].
+      apply runs_intro. cbn [run_op]. unfold with_reg. rbind; [apply reg_at_has|]. rewrite Hm. rdone. }
+  destruct x; try discriminate. destruct (reg_at rs (rreg m)) as [gm|] eqn:Egm; [|contradiction].
+  cbn [ref_ok] in Hm. destruct Hm as (tc & -> & Htc & HE & Hnew).
+  destruct (h_reg a (ereg k)) as [y|] eqn:Ey.
+  2:{ injection Ha as <- <-. apply ref_none in Hk.
+      exists (1%N, @None str), (mk_state ts (set_reg_l (rreg m) None rs)). split.
+      - apply runs_intro. cbn [run_op]. unfold with_reg. rbind; [apply reg_at_has|]. rewrite Egm.
+        rbind; [apply reg_at_has|]. rewrite Hk. rbind; [apply runs_set_reg|]. rdone.
+      - exists tid, ri, l. cbn [trees regs h_f h_reg]. split; [exact HT|]. split; [exact Hw|]. split; [exact Hc|].
+        split; [rewrite upd_other by apply rreg_neq0; exact H0|]. split.
+        + apply refs_set; [exact Hok|exact I].
+        + apply uniq_set_plain; [exact U|exact I]. }
+  destruct y; try discriminate.
+  destruct (reg_at rs (ereg k)) as [gk|] eqn:Egk; [|contradiction]. cbn [ref_ok] in Hk. destruct Hk as (ci & e & He & ->).
+  destruct (nth_entry_content _ _ _ _ _ _ Hc He) as (Hi & Hna).
+  destruct (j <? n_alts (h_f a) i) eqn:Ej; [|discriminate]. injection Ha as <- <-.
+  cbn [forallb] in Ho. rewrite andb_true_r in Ho.
+  apply Nat.ltb_lt in Ej. pose proof Ej as Ej'. rewrite Hna in Ej'.
+  assert (Hjb : j <? n_rels e = true) by now apply Nat.ltb_lt.
+  pose proof (nth_error_Some_lt _ _ _ HT) as Hlt.
+  assert (Hx' : x_in_range (fst (lcontent l)) (AEReplace i j r) = true) by (rewrite Hc; cbn [fst x_in_range]; now apply x_in_range_rel).
+  destruct (live_step_tree b (AEReplace i j r) l Hw Ho Hx') as (l' & Hal & _ & Hw' & Hc' & _).
+  cbn [a_op] in Hal. rewrite He, Hjb in Hal. injection Hal as <-.
+  destruct (nth_rel_some e j Hjb) as (r0 & Hr0).
+  destruct (entry_rel_split e j r0 Hr0) as (rp & rq & Ech & Hn & Hupd).
+  assert (HGe : get_path (ltree l) [ci] = Some (Node ENTRY (rp ++ Node RELATION (lrel_children r0) :: rq))).
+  { rewrite (get_path_entry _ _ _ _ He). unfold lentry_tree. now rewrite Ech. }
+  assert (Hidx : nth_index is_relation j (rp ++ Node RELATION (lrel_children r0) :: rq) = Some (length rp)) by (rewrite <- Hn, Ech; reflexivity).
+  destruct (ereplace_machine ts rs (ereg k) (rreg m) tid ri (ltree l) ci rp (lrel_children r0) rq r j tc 0
+              (reg_at_nth _ _ _ Egk) (reg_at_nth _ _ _ Egm) HT HGe HE (not_eq_sym Htc) Hidx eq_refl)
+    as (ts' & F & R & T' & O & A & B).
+  set (e' := a_ereplace e j (lrel_new r)) in *.
+  assert (ET : upd_path (ltree l) [ci] (fun _ => Node ENTRY (rp ++ dressed (Node RELATION (lrel_children r0)) (crel_tree r) :: rq))
+               = ltree (replace_at ci (RE e') l)).
+  { apply (upd_entry_at l i ci e); [exact He|]. unfold lentry_tree, e', a_ereplace. rewrite Hupd.
+    rewrite (crel_is_lrel _ Hnew). change (Node RELATION (lrel_children r0)) with (lrel_tree r0). now rewrite dressed_commute. }
+  rewrite ET in T'.
+  assert (Fk : F (mk_hnd tid [ci]) = mk_hnd tid [ci]) by (apply A; [exact Hlt|cbn; congruence|apply above_self]).
+  assert (Hne : ereg k <> rreg m) by apply ereg_rreg.
+  eexists (0%N, _), (mk_state ts' (set_reg_l (rreg m) None (map (option_map F) rs))). split.
+  - apply runs_intro. cbn [run_op]. unfold with_reg. rbind; [apply reg_at_has|]. rewrite Egm.
+    rbind; [apply reg_at_has|]. rewrite Egk. rbind; [exact R|].
+    rbind; [|rdone]. eapply reg_text_runs; [|exact T'|].
+    + rewrite reg_at_set. apply Nat.eqb_neq in Hne. rewrite Hne. rewrite reg_at_map, Egk. cbn [option_map]. now rewrite Fk.
+    + cbn [s_tree]. rewrite <- ET. eapply get_path_upd_path. exact HGe.
+  - exists tid, ri, (replace_at ci (RE e') l). cbn [trees regs h_f h_reg].
+    split; [exact T'|]. split; [exact Hw'|]. split; [rewrite Hc', Hc; reflexivity|].
+    split; [rewrite upd_other by apply rreg_neq0; unfold remap; rewrite H0; reflexivity|].
+    assert (Hnc : forall q x g, q <> rreg m -> h_reg a q = Some x -> is_new x = true -> reg_at rs q = Some g -> h_tid g <> tc).
+    { intros q x g Hq Hx Nx Hg. apply (U q (rreg m) x (RNew r) g (mk_hnd tc []) Hq Hx Ex Nx eq_refl Hg Egm). }
+    assert (HF : forall g, h_tid g < length ts -> h_tid g <> tid -> h_tid g <> tc -> F g = g).
+    { intros g Hg Hn1 Hn2. apply A; [exact Hg|exact Hn2|now apply above_other]. }
+    split.
+    + intros q. rewrite reg_at_set. unfold upd. destruct (q =? rreg m) eqn:Eq; [exact I|]. apply Nat.eqb_neq in Eq.
+      eapply (refs_transport_x ts ts' rs F tid tc l); [apply keeps_gone_rel| |exact HF| | | |exact Hnc|exact Hok|exact Eq].
+      * intros j0 sl Hj0 Hn1 Hn2. rewrite O; [exact Hj0|exact Hn1|exact Hn2|eapply nth_error_Some_lt; exact Hj0].
+      * apply A; [exact Hlt|cbn; congruence|apply above_root].
+      * intros i0 c0 e0 H1. cbn [gone_rel_ref ref_ok]. exists c0, (if i0 =? i then e' else e0).
+        split; [now apply (nth_entry_replace l i ci e)|]. f_equal. apply A; [exact Hlt|cbn; congruence|].
+        destruct (Nat.eq_dec c0 ci) as [->|Hn0]; [apply above_self|]. apply (above_sibling tid [] ci c0 [] []). congruence.
+      * intros i0 j0 c0 e0 cj0 H1 Hj0. cbn [gone_rel_ref]. destruct (Nat.eq_dec c0 ci) as [->|Hn0].
+        -- destruct (nth_entry_inj _ _ _ _ _ _ He H1) as [-> ->]. rewrite Nat.eqb_refl. cbn [andb].
+           destruct (j0 =? j) eqn:Ej0; [exact I|]. apply Nat.eqb_neq in Ej0.
+           assert (Hcj : cj0 <> length rp) by (intros ->; apply Ej0; eapply nth_index_inj; [exact Hj0|exact Hn]).
+           cbn [ref_ok]. exists ci, e', cj0. split; [|split].
+           ++ rewrite (nth_entry_replace l i ci e e' i ci e He He). now rewrite Nat.eqb_refl.
+           ++ unfold e', a_ereplace. rewrite Hupd. rewrite Ech in Hj0. rewrite <- Hj0. symmetry. apply nth_index_replace_same. reflexivity.
+           ++ change [ci; cj0] with ([ci] ++ cj0 :: []). now rewrite B.
+        -- assert (Ei : i0 =? i = false).
+           { apply Nat.eqb_neq. intros ->. rewrite He in H1. congruence. }
+           rewrite Ei. cbn [andb ref_ok]. exists c0, e0, cj0. split; [|split; [exact Hj0|]].
+           ++ rewrite (nth_entry_replace l i ci e e' i0 c0 e0 He H1). now rewrite Ei.
+           ++ f_equal. apply A; [exact Hlt|cbn; congruence|]. apply (above_sibling tid [] ci c0 [] [cj0]). congruence.
+    + eapply uniq_consume; [apply keeps_gone_rel|exact HF|exact Hnc|exact Hok|exact U].
+Qed.
+
+(* ------------------------------------------------------------------ one operation: all of them *)
+Theorem handles_step b sv st a o a' tr :
+  Rel b sv st a -> h_op o a = Some (a', tr) -> forallb operands_ok tr = true ->
+  exists out st', run_op fixed o st = Ok (out, st') /\ Rel b sv st' a'.
+Proof.
+  intros HR Ha Ho. destruct o.
+  - destruct (step_get_entry _ _ _ _ _ _ _ _ HR Ha) as (out & st' & H1 & H2 & _). eauto.
+  - destruct (step_get_rel _ _ _ _ _ _ _ _ _ HR Ha) as (out & st' & H1 & H2 & _). eauto.
+  - destruct (step_new_entry _ _ _ _ _ _ _ _ HR Ha) as (out & st' & H1 & H2 & _). eauto.
+  - destruct (step_new_rel _ _ _ _ _ _ _ _ HR Ha) as (out & st' & H1 & H2 & _). eauto.
+  - eapply step_push; eauto.
+  - eapply step_insert; eauto.
+  - eapply step_replace; eauto.
+  - eapply step_remove_entry; eauto.
+  - eapply step_epush; eauto.
+  - eapply step_ereplace; eauto.
+  - eapply step_eremove_rel; eauto.
+  - eapply step_eremove; eauto.
+  - eapply step_rremove; eauto.
+  - eapply step_set_version; eauto.
+  - eapply step_drop_constraint; eauto.
+  - eapply step_set_archqual; eauto.
+  - eapply step_set_archs; eauto.
+  - eapply step_add_profile; eauto.
+Qed.
